@@ -23,17 +23,14 @@ env.quiet_logging()
 from proxy.core.event import EventQueue, EventDispatcher, EventSubscriber, eventNames     # noqa: E402
 
 PROPERTY = 'C18'
-# Work in progress, not registered: the first full run (quick, seed 1) took 277 s, lost a shard to the watchdog and
-# reported stress-phase differences that have not been triaged (harness ack time-outs vs. the dispatcher).  No verdict
-# on C18 is claimed until that is done; bin/mkmanifest lists the property as not claimed.
-DISABLED = ('check not finished in this round: checks/c18.py exists but its stress phase is neither bounded nor triaged '
-            '(DESIGN.md \u00a73 C18); no verdict is claimed')
 LEVEL = 'exploration'
 LEVEL_TEXT = ('Exploration with an exhaustive sub-space: every history over {subscribe, unsubscribe (also repeated / '
               'unknown ids), publish, break channel (reader closed with or without unread data; duplex and simplex '
               'pipes)} with <= 3 subscribers up to length 5 (quick) / 6 (thorough), random histories to length 40 '
-              'through the real multiprocessing queue, and threaded stress with the real dispatcher thread. Each '
-              'subscriber channel transcript is checked against a sequential pub/sub model.')
+              'through the real multiprocessing queue, and threaded stress: the real dispatcher thread, concurrent '
+              'publisher threads, whole-run / mid-stream / channel-breaking subscribers each drained by its own thread, '
+              'a real EventSubscriber relay, repeated and unknown unsubscribes. Each subscriber channel transcript is '
+              'checked against a sequential pub/sub model (stress: must/may delivery windows from publish counters).')
 LEVEL_NOTE = 'Trusted: the sequential model in this file; unique event ids make histories unambiguous.'
 TECHNIQUE = 'offline history checking: per-subscriber channel transcripts vs a sequential pub/sub model, unique event ids'
 RULE = ('case = one history (list of operations) or one stress run; non-trivial = history has >= 2 subscribers and >= 1 '
@@ -45,6 +42,18 @@ EXHAUSTIVE = {'quick': ['all canonical histories up to length 5 over 3 subscribe
               'thorough': ['all canonical histories up to length 6 over 3 subscribers']}
 
 SUBSCRIBED, UNSUBSCRIBED = eventNames.SUBSCRIBED, eventNames.UNSUBSCRIBED
+
+
+def dispose_queue(mpq: Any) -> None:
+    """Empty and close a multiprocessing.Queue whose consumer may have died: its feeder thread blocks on a
+    full pipe otherwise and join_thread() never returns."""
+    try:
+        while True:
+            mpq.get(timeout=0.05)
+    except Exception:
+        pass
+    mpq.close()
+    mpq.cancel_join_thread()
 
 
 class Sub:
@@ -103,6 +112,8 @@ def run_history(ops: List[List[Any]], via_queue: bool, duplex: bool) -> Tuple[Li
         except Exception as e:
             bad.append(('dispatcher-raised:%s' % type(e).__name__, repr(e)[:200]))
 
+    # a subscriber that will break *with unread data* is not drained beforehand (else nothing would be unread)
+    keep_unread = {o[1] for o in ops if o[0] == 'break' and o[2]}
     try:
         for op in ops:
             counters['ops'] += 1
@@ -138,12 +149,15 @@ def run_history(ops: List[List[Any]], via_queue: bool, duplex: bool) -> Tuple[Li
                 counters['breaks'] += 1
                 if not unread:
                     s.drain()
+                elif s.recv.poll(0):
+                    counters['breaks_with_unread_data'] = counters.get('breaks_with_unread_data', 0) + 1
                 s.broken = True
                 s.recv.close()
                 # the model learns about the breakage when the dispatcher next sends to it; from the
                 # other subscribers' point of view nothing changes, which is all the oracle demands
             for s in subs.values():
-                s.drain()
+                if s.sid not in keep_unread:
+                    s.drain()
         # verdicts
         for sid, s in subs.items():
             if s.broken:
@@ -178,8 +192,7 @@ def run_history(ops: List[List[Any]], via_queue: bool, duplex: bool) -> Tuple[Li
             except Exception:
                 pass
         if mpq is not None:
-            mpq.close()
-            mpq.join_thread()
+            dispose_queue(mpq)
     return bad, counters
 
 
@@ -192,12 +205,82 @@ def feature(ops: List[List[Any]], duplex: bool) -> str:
     return '+'.join(f)
 
 
+class Reader(threading.Thread):
+    """A subscriber process stand-in: owns the read end of its channel and drains it continuously
+    (so the dispatcher never blocks on a full pipe), recording everything in arrival order."""
+
+    def __init__(self, sid: str, duplex: bool) -> None:
+        super().__init__(daemon=True)
+        self.sid = sid
+        if duplex:
+            self.recv, self.send = multiprocessing.Pipe()
+        else:
+            self.recv, self.send = multiprocessing.Pipe(duplex=False)
+        self.got: List[Tuple[int, int]] = []      # (publisher, n) in arrival order
+        self.log: List[Any] = []                  # everything, incl. acks, in arrival order
+        self.subscribed = threading.Event()
+        self.unsubscribed = threading.Event()
+        self.eof = threading.Event()
+        self.quit = threading.Event()
+        self.after_unsub: List[Any] = []
+
+    def run(self) -> None:
+        try:
+            while not self.quit.is_set():
+                if not self.recv.poll(0.02):
+                    continue
+                ev = self.recv.recv()
+                name = ev.get('event_name')
+                if self.unsubscribed.is_set():
+                    self.after_unsub.append(name)
+                if name == SUBSCRIBED:
+                    self.log.append('SUBSCRIBED')
+                    self.subscribed.set()
+                elif name == UNSUBSCRIBED:
+                    self.log.append('UNSUBSCRIBED')
+                    self.unsubscribed.set()
+                elif name == eventNames.DISPATCHER_SHUTDOWN:
+                    self.log.append('SHUTDOWN')
+                else:
+                    pid_n = tuple(ev['event_payload']['id'])
+                    self.got.append(pid_n)      # type: ignore[arg-type]
+                    self.log.append(pid_n)
+        except Exception:       # EOF, or our own close() racing with poll()/recv()
+            pass
+        finally:
+            self.eof.set()
+
+    def close(self) -> None:
+        self.quit.set()
+        for c in (self.recv, self.send):
+            try:
+                c.close()
+            except Exception:
+                pass
+
+
+WAIT_S = 20.0       # harness waits; expiry while the dispatcher is alive = inconclusive, never a verdict
+
+
 def stress(case: Dict[str, Any]) -> Tuple[List[Tuple[str, Any]], Dict[str, int]]:
-    """Real dispatcher thread, concurrent publishers, raw-pipe subscribers read by harness threads
-    plus real EventSubscriber relay threads."""
+    """Real dispatcher thread over the real multiprocessing queue, concurrent publisher threads, and
+    concurrently subscribing / unsubscribing / breaking subscribers, each drained by its own thread.
+
+    Oracle (unique (publisher, n) ids make the history unambiguous):
+      * whole-run subscribers (acked before the first publish, unsubscribed after the last) and the real
+        EventSubscriber relay receive every event exactly once;
+      * a mid-stream subscriber must receive every event whose publish() began after it had read its
+        SUBSCRIBED ack and returned before it issued unsubscribe (must-set), may receive events in flight
+        around those two instants, and must not receive any event whose publish() had returned before
+        it issued subscribe or had not begun when its unsubscribe was already queued;
+      * no subscriber sees a duplicate; all sequences embed into one total order (that of whole-run
+        subscriber 0), which respects every publisher's program order;
+      * nothing arrives after UNSUBSCRIBED; breaking subscribers and repeated / unknown unsubscribes
+        leave all of the above intact and the dispatcher thread alive."""
     rng = random.Random('c18s:%s:%s' % (case['seed'], case['i']))
     import sys
-    sys.setswitchinterval(1e-5)
+    old_si = sys.getswitchinterval()
+    sys.setswitchinterval(case.get('switch', 1e-4))
     mpq = multiprocessing.Queue()
     eq = EventQueue(mpq)
     shutdown = threading.Event()
@@ -205,102 +288,198 @@ def stress(case: Dict[str, Any]) -> Tuple[List[Tuple[str, Any]], Dict[str, int]]
     dt = threading.Thread(target=disp.run, daemon=True)
     dt.start()
     bad: List[Tuple[str, Any]] = []
-    npub, per, nsub = case['publishers'], case['events'], case['subscribers']
-    # raw subscribers (whole-run): subscribe, wait for ack, ... , unsubscribe, wait for ack
-    raws = []
-    for k in range(nsub):
-        r, s = multiprocessing.Pipe()
-        raws.append({'sid': 'raw%d' % k, 'recv': r, 'send': s, 'got': [], 'acks': []})
-        eq.subscribe('raw%d' % k, s)
-    relay_got: List[Any] = []
-    relay = EventSubscriber(eq, callback=lambda ev: relay_got.append(ev['event_payload'].get('id')))
-    relay.setup()
+    inconclusive: List[str] = []
+    npub, per = case['publishers'], case['events']
 
-    def wait_ack(sub: Dict[str, Any], name: int, timeout: float = 10.0) -> bool:
-        end = time.time() + timeout
+    def wait(evt: threading.Event) -> bool:
+        """Wait for evt, giving up at once when the dispatcher thread is gone (that is the verdict then)."""
+        end = time.time() + WAIT_S
         while time.time() < end:
-            if sub['recv'].poll(0.05):
-                ev = sub['recv'].recv()
-                if ev.get('event_name') in (SUBSCRIBED, UNSUBSCRIBED):
-                    sub['acks'].append(ev['event_name'])
-                    if ev['event_name'] == name:
-                        return True
-                else:
-                    sub['got'].append(ev['event_payload']['id'])
+            if evt.wait(0.05):
+                return True
+            if not dt.is_alive():
+                return evt.is_set()
         return False
-    inconclusive = None
-    try:
-        for sub in raws:
-            if not wait_ack(sub, SUBSCRIBED):
-                inconclusive = 'no-subscribe-ack'
-        time.sleep(0.05)    # the relay subscriber has no observable ack: give its SUBSCRIBE time to be processed
+    dur = case.get('dur', 0.3)
+    started = [-1] * npub       # n set before publish(n) begins
+    done = [0] * npub           # n+1 set after publish(n) returned
+    readers: List[Reader] = []
+    relay_got: List[Any] = []
+    relay = EventSubscriber(eq, callback=lambda ev: relay_got.append(tuple(ev['event_payload'].get('id') or ())))
+    relay.setup()               # its SUBSCRIBE is queued first: processed before the acks awaited below
+    whole = []
+    for k in range(case['subscribers']):
+        r = Reader('whole%d' % k, duplex=(k % 2 == 0))
+        r.start()
+        readers.append(r)
+        whole.append(r)
+        eq.subscribe(r.sid, r.send)
+    for r in whole:
+        if not wait(r.subscribed):
+            inconclusive.append('no-subscribe-ack')
+    mids: List[Dict[str, Any]] = []
+    mid_lock = threading.Lock()
 
-        def publisher(p: int) -> None:
-            for n in range(per):
-                eq.publish(request_id='r', event_name=eventNames.WORK_STARTED, event_payload={'id': [p, n]}, publisher_id='p%d' % p)
-                if rng.random() < 0.1:
-                    time.sleep(0)
+    def mid(k: int, delay: float, hold: float, duplex: bool, breaker: bool) -> None:
+        r = Reader(('brk%d' if breaker else 'mid%d') % k, duplex)
+        rec: Dict[str, Any] = {'r': r, 'breaker': breaker}
+        with mid_lock:
+            readers.append(r)
+            mids.append(rec)
+        time.sleep(delay)
+        r.start()
+        rec['not_before'] = list(done)          # fully published before subscribe was issued: must not arrive
+        eq.subscribe(r.sid, r.send)
+        if not wait(r.subscribed):
+            rec['noack'] = True
+            return
+        rec['lo'] = [d + 1 for d in done]       # publish(n) for n >= done+1 began after the ack was read
+        time.sleep(hold)
+        if breaker:
+            r.quit.set()                        # stop reading, then close with whatever is unread
+            time.sleep(0.001)
+            try:
+                r.recv.close()
+            except Exception:
+                pass
+            rec['broke'] = True
+            return
+        rec['hi'] = list(done)                  # publish(n) for n < done returned before unsubscribe is issued
+        eq.unsubscribe(r.sid)
+        rec['not_after'] = list(started)        # read once UNSUBSCRIBE is queued: publish(n) for n > started had not begun
+        if rng.random() < 0.5:
+            eq.unsubscribe(r.sid)               # repeated unsubscribe: a no-op
+        if not wait(r.unsubscribed):
+            rec['nounack'] = True
+
+    def publisher(p: int) -> None:
+        prng = random.Random('pub:%s:%s:%d' % (case['seed'], case['i'], p))
+        for n in range(per):
+            started[p] = n
+            eq.publish(request_id='r', event_name=eventNames.WORK_STARTED, event_payload={'id': [p, n]},
+                       publisher_id='p%d' % p)
+            done[p] = n + 1
+            x = prng.random()
+            if x < 0.6:
+                time.sleep(dur / per)           # pace: publication lasts about `dur` seconds
+            elif x < 0.8:
+                time.sleep(0)
+
+    def chaos() -> None:
+        for _ in range(case.get('chaos', 10)):
+            eq.unsubscribe('nobody-%d' % rng.randint(0, 3))
+            time.sleep(0.002)
+    try:
         ths = [threading.Thread(target=publisher, args=(p,)) for p in range(npub)]
-        for t in ths:
+        span = dur * 0.5
+        mts = []
+        for k in range(case.get('mids', 0)):
+            mts.append(threading.Thread(target=mid, args=(k, rng.random() * span, (0.1 + rng.random()) * span, rng.random() < 0.5, False)))
+        for k in range(case.get('breakers', 0)):
+            mts.append(threading.Thread(target=mid, args=(k, rng.random() * span, rng.random() * span * 0.5, rng.random() < 0.5, True)))
+        ct = threading.Thread(target=chaos)
+        for t in ths + mts + [ct]:
             t.start()
-        for t in ths:
-            t.join()
+        for t in ths + mts + [ct]:
+            t.join(WAIT_S * 3)
+            if t.is_alive():
+                inconclusive.append('harness-thread-stuck')
         total = npub * per
-        # a mid-stream subscriber that breaks its channel with unread data (must not disturb the others)
-        if case.get('breaker'):
-            r2, s2 = multiprocessing.Pipe()
-            eq.subscribe('breaker', s2)
-            eq.publish(request_id='r', event_name=eventNames.WORK_STARTED, event_payload={'id': [99, 0]}, publisher_id='x')
-            time.sleep(0.02)
-            r2.close()
-            for n in range(1, 4):
-                eq.publish(request_id='r', event_name=eventNames.WORK_STARTED, event_payload={'id': [99, n]}, publisher_id='x')
-            total += 4
-        for sub in raws:
-            eq.unsubscribe(sub['sid'])
-        for sub in raws:
-            if not wait_ack(sub, UNSUBSCRIBED):
+        for r in whole:
+            eq.unsubscribe(r.sid)
+        for r in whole:
+            if not wait(r.unsubscribed):
                 if not dt.is_alive():
-                    bad.append(('dispatcher-thread-died', None))
                     break
-                inconclusive = inconclusive or 'no-unsubscribe-ack'
-        end = time.time() + 5
+                inconclusive.append('no-unsubscribe-ack')
+        end = time.time() + WAIT_S
         while len(relay_got) < total and time.time() < end and dt.is_alive():
-            time.sleep(0.01)
-        # oracle
-        ref = [tuple(x) for x in raws[0]['got']] if raws else []
-        for sub in raws:
-            got = [tuple(x) for x in sub['got']]
-            if len(got) != len(set(got)):
-                bad.append(('stress-duplicate', sub['sid']))
-            if len(set(got)) != total and not bad:
-                bad.append(('stress-lost', {'sid': sub['sid'], 'got': len(set(got)), 'expected': total}))
-            if got != ref:
-                bad.append(('stress-subscribers-disagree-on-order', sub['sid']))
-            for p in range(npub):
-                seq = [n for (pp, n) in got if pp == p]
-                if seq != sorted(seq):
-                    bad.append(('stress-publisher-order-violated', {'sid': sub['sid'], 'publisher': p}))
-        rg = [tuple(x) for x in relay_got if x is not None]
-        if len(rg) != len(set(rg)):
-            bad.append(('stress-relay-duplicate', None))
-        if len(set(rg)) != total and not inconclusive and dt.is_alive():
-            bad.append(('stress-relay-lost', {'got': len(set(rg)), 'expected': total}))
+            time.sleep(0.005)
         if not dt.is_alive():
             bad.append(('dispatcher-thread-died', None))
+            del inconclusive[:]     # missing acks are explained by the verdict above
+        time.sleep(0.02)        # anything wrongly sent after an UNSUBSCRIBED ack gets a chance to arrive
+        # ---- oracle ----
+        allids = {(p, n) for p in range(npub) for n in range(per)}
+        ref = list(whole[0].got) if whole else []
+        pos = {e: i for i, e in enumerate(ref)}
+        checked = 0
+        if not inconclusive and not bad:
+            for r in whole:
+                got = r.got
+                checked += len(got)
+                if len(got) != len(set(got)):
+                    bad.append(('stress-duplicate', {'sid': r.sid}))
+                elif set(got) != allids:
+                    bad.append(('stress-lost', {'sid': r.sid, 'got': len(set(got)), 'expected': total,
+                                                'missing_sample': sorted(allids - set(got))[:5]}))
+                elif got != ref:
+                    bad.append(('stress-subscribers-disagree-on-order', {'sid': r.sid}))
+                if r.log[:1] != ['SUBSCRIBED'] or r.log[-1:] != ['UNSUBSCRIBED'] or r.after_unsub:
+                    bad.append(('stress-ack-misplaced', {'sid': r.sid, 'head': r.log[:2], 'tail': r.log[-2:],
+                                                         'after_unsub': r.after_unsub[:3]}))
+            for p in range(npub):
+                seq = [n for (pp, n) in ref if pp == p]
+                if seq != sorted(seq):
+                    bad.append(('stress-publisher-order-violated', {'publisher': p}))
+            rg = [x for x in relay_got if x]
+            checked += len(rg)
+            if len(rg) != len(set(rg)):
+                bad.append(('stress-relay-duplicate', None))
+            elif set(rg) != allids:
+                bad.append(('stress-relay-lost', {'got': len(set(rg)), 'expected': total}))
+            elif rg != ref and ref:
+                bad.append(('stress-relay-order-differs', None))
+            for rec in mids:
+                r = rec['r']
+                if rec.get('noack') or rec.get('nounack'):
+                    if dt.is_alive():
+                        inconclusive.append('mid-ack-timeout')
+                    continue
+                got = list(r.got)
+                checked += len(got)
+                if len(got) != len(set(got)):
+                    bad.append(('stress-mid-duplicate', {'sid': r.sid}))
+                idx = [pos.get(e, -1) for e in got]
+                if ref and (any(i < 0 for i in idx) or idx != sorted(idx)):
+                    bad.append(('stress-mid-order-differs', {'sid': r.sid}))
+                for (p, n) in got:
+                    if n < rec['not_before'][p]:
+                        bad.append(('stress-mid-delivered-event-published-before-subscribe', {'sid': r.sid, 'ev': (p, n)}))
+                        break
+                if rec['breaker']:
+                    continue
+                must = {(p, n) for p in range(npub) for n in range(rec['lo'][p], rec['hi'][p])}
+                miss = must - set(got)
+                if miss:
+                    bad.append(('stress-mid-lost', {'sid': r.sid, 'missing': sorted(miss)[:5], 'must': len(must)}))
+                for (p, n) in got:
+                    if n > rec['not_after'][p]:
+                        bad.append(('stress-mid-delivered-event-published-after-unsubscribe', {'sid': r.sid, 'ev': (p, n)}))
+                        break
+                if r.log[:1] != ['SUBSCRIBED'] or r.log[-1:] != ['UNSUBSCRIBED'] or r.after_unsub:
+                    bad.append(('stress-mid-ack-misplaced', {'sid': r.sid, 'head': r.log[:2], 'tail': r.log[-2:],
+                                                             'after_unsub': r.after_unsub[:3]}))
     finally:
+        sys.setswitchinterval(old_si)
         shutdown.set()
         try:
             relay.shutdown()
         except Exception:
             pass
         dt.join(timeout=3)
-        for sub in raws:
-            sub['recv'].close()
-            sub['send'].close()
-        mpq.close()
-        mpq.join_thread()
-    c = {'stress_events': npub * per, 'stress_deliveries_checked': sum(len(s['got']) for s in raws) + len(relay_got)}
+        for r in readers:
+            r.close()
+        for c in list(disp.subscribers.values()):
+            try:
+                c.close()
+            except Exception:
+                pass
+        dispose_queue(mpq)
+    c = {'stress_events': npub * per, 'stress_deliveries_checked': checked,
+         'stress_mid_subscribers': sum(1 for m in mids if not m['breaker']),
+         'stress_breakers': sum(1 for m in mids if m.get('broke')),
+         'stress_mid_must_events': sum(sum(max(0, m['hi'][p] - m['lo'][p]) for p in range(npub)) for m in mids if 'hi' in m)}
     if inconclusive:
         c['_inconclusive'] = 1
     return bad, c
@@ -310,7 +489,7 @@ def run_case(case: Dict[str, Any]) -> Dict[str, Any]:
     if case['kind'] == 'stress':
         bad, counters = stress(case)
         inconc = 'stress-ack-timeout' if counters.pop('_inconclusive', 0) else None
-        feat = 'stress' + ('+breaker' if case.get('breaker') else '')
+        feat = 'stress'
         return {'viol': [{'key': '%s|%s' % (feat, w), 'detail': d} for (w, d) in bad], 'nontrivial': True,
                 'sig': 'stress/%s' % case['i'], 'obs': dict(counters, stress_runs=1), 'inconclusive': inconc,
                 'sample': {'kind': 'stress', 'case': case}}
@@ -405,15 +584,17 @@ def cases(tier: str, seed: int):
             hs.append(h)
         i += 1
         yield {'seed': seed, 'i': i, 'kind': 'hist', 'histories': hs, 'via_queue': True, 'pipes': [rng.random() < 0.7]}
-    for k in range(6 if tier == 'quick' else 120):
+    for k in range(16 if tier == 'quick' else 400):
         i += 1
-        yield {'seed': seed, 'i': i, 'kind': 'stress', 'publishers': rng.choice([1, 2, 4, 8]), 'events': rng.choice([50, 200, 500]),
-               'subscribers': rng.choice([1, 2, 3]), 'breaker': k % 2 == 1}
+        yield {'seed': seed, 'i': i, 'kind': 'stress', 'publishers': rng.choice([1, 2, 4, 8]), 'events': rng.choice([50, 200, 400]),
+               'subscribers': rng.choice([1, 2, 3]), 'mids': rng.choice([1, 2, 3]), 'breakers': rng.choice([0, 1, 2]),
+               'chaos': 10, 'switch': rng.choice([1e-5, 1e-4, 5e-3])}
 
 
 def floors(tier: str) -> Dict[str, int]:
-    return {'histories': 3000, 'nontrivial_histories': 1000, 'breaks': 500, 'deliveries_checked': 5000, 'via_queue': 100,
-            'stress_runs': 4, 'stress_deliveries_checked': 1000}
+    return {'histories': 3000, 'nontrivial_histories': 1000, 'breaks': 500, 'breaks_with_unread_data': 100,
+            'deliveries_checked': 5000, 'via_queue': 100, 'stress_runs': 10, 'stress_deliveries_checked': 5000,
+            'stress_mid_subscribers': 8, 'stress_mid_must_events': 200, 'stress_breakers': 3}
 
 
 if __name__ == '__main__':
